@@ -14,7 +14,6 @@ import (
 	"fmt"
 	"math"
 	"net/url"
-	"reflect"
 	"sort"
 	"strconv"
 	"strings"
@@ -776,5 +775,4 @@ func main() {
 	g.totality(thorough)
 	g.o.Close()
 	fmt.Printf("c17: %d cases, %d URI inputs skipped (two aliases of one member in the query)\n", g.o.N, g.skipped)
-	_ = reflect.TypeOf
 }
